@@ -68,14 +68,15 @@ func ZZHarnessConsume() {
 	H := specqbft.Height(5)
 	R := specqbft.Round(zzParam("ROUND"))
 	inst := &instance.Instance{State: &specqbft.State{Height: H, Round: R}}
-	accepted := zzNondetBool("proposalAccepted")
-	if accepted {
+	// consumer-visible runner state: 0 idle, 1 duty running without an instance (pre-consensus), 2 instance without an
+	// accepted proposal for its round, 3 instance with one
+	st := zzChoose("runnerState", 4)
+	if st == 3 {
 		inst.State.ProposalAcceptedForCurrentRound = &specqbft.SignedMessage{}
 	}
-	fr := &zzQRunner{running: zzNondetBool("dutyRunning"),
+	fr := &zzQRunner{running: st != 0,
 		base: &runner.BaseRunner{State: &runner.State{RunningInstance: inst}, QBFTController: &controller.Controller{Height: H}}}
-	hasInst := zzNondetBool("hasInstance")
-	if !hasInst {
+	if st < 2 {
 		fr.base.State.RunningInstance = nil
 	}
 	ctx, cancel := context.WithCancel(context.Background())
